@@ -45,7 +45,18 @@ pub struct Server {
 impl Drop for Server {
     fn drop(&mut self) {
         if self.stopped { unsafe { libc::kill(self.child.id() as i32, libc::SIGCONT); } }
+        // under a wrapper (strace -f) the server is a descendant of `child`; a killed strace detaches its tracees and leaves them running
+        let mut stack = vec![self.child.id() as i32];
+        let mut descendants = vec![];
+        while let Some(p) = stack.pop() {
+            if let Ok(rd) = std::fs::read_dir(format!("/proc/{}/task", p)) {
+                for t in rd.filter_map(|e| e.ok()) {
+                    if let Ok(c) = std::fs::read_to_string(t.path().join("children")) { for k in c.split_whitespace().filter_map(|x| x.parse::<i32>().ok()) { descendants.push(k); stack.push(k); } }
+                }
+            }
+        }
         let _ = self.child.kill();
+        for d in descendants { unsafe { libc::kill(d, libc::SIGKILL); } }
         let _ = self.child.wait();
         let _ = std::fs::remove_file(&self.log);
     }
@@ -70,6 +81,8 @@ impl Server {
             }
             for (k, v) in &opts.env { cmd.env(k, v); }
             for a in &opts.args { cmd.arg(a); }
+            // the server must not outlive the worker that started it (watchdog, supervisor killed)
+            { use std::os::unix::process::CommandExt; unsafe { cmd.pre_exec(|| { libc::prctl(libc::PR_SET_PDEATHSIG, libc::SIGKILL); Ok(()) }); } }
             let child = cmd.spawn().map_err(|e| format!("spawn {}: {}", rws_bin().display(), e))?;
             let addr: SocketAddr = format!("{}:{}", opts.ip, port).parse().map_err(|e| format!("{:?}", e))?;
             let mut s = Server { child, addr, threads: opts.threads, log, stopped: false };
